@@ -11,6 +11,45 @@ use mcx::{guard, CheckDef, Ctx, Sub, Tier};
 
 type R<'a> = EndianSlice<'a, RunTimeEndian>;
 
+/// Value of symbol 0 for the symbol-resolving writer below.
+const SYM0: u64 = 0x1800;
+
+/// `EndianVec` whose `write_address` resolves `Address::Symbol { symbol: 0, addend }` to
+/// `SYM0 + addend` (the stock writer rejects symbolic addresses), so that a unit whose
+/// DW_AT_low_pc is symbolic can be written and read back.
+#[derive(Clone, Debug)]
+pub struct SymVec(EndianVec<RunTimeEndian>);
+impl SymVec {
+    pub fn new(e: RunTimeEndian) -> SymVec {
+        SymVec(EndianVec::new(e))
+    }
+    pub fn slice(&self) -> &[u8] {
+        self.0.slice()
+    }
+}
+impl write::Writer for SymVec {
+    type Endian = RunTimeEndian;
+    fn endian(&self) -> RunTimeEndian {
+        self.0.endian()
+    }
+    fn len(&self) -> usize {
+        self.0.len()
+    }
+    fn write(&mut self, bytes: &[u8]) -> write::Result<()> {
+        self.0.write(bytes)
+    }
+    fn write_at(&mut self, offset: usize, bytes: &[u8]) -> write::Result<()> {
+        self.0.write_at(offset, bytes)
+    }
+    fn write_address(&mut self, address: Address, size: u8) -> write::Result<()> {
+        match address {
+            Address::Constant(v) => self.write_udata(v, size),
+            Address::Symbol { symbol: 0, addend } => self.write_udata(SYM0.wrapping_add(addend as u64), size),
+            Address::Symbol { .. } => Err(write::Error::InvalidAddress),
+        }
+    }
+}
+
 /// Entry alphabet for the writer (addresses/lengths from B(size)).
 pub fn alphabet(loc: bool, size: u8) -> Vec<E> {
     let mx = m::ones(size);
@@ -69,7 +108,7 @@ pub struct WCfg {
     version: u16,
     fmt64: bool,
     size: u8,
-    /// 0 absent, 1 DW_AT_low_pc = 0, 2 DW_AT_low_pc = 0x1000
+    /// 0 absent, 1 DW_AT_low_pc = 0, 2 DW_AT_low_pc = 0x1000, 3 DW_AT_low_pc = symbol 0 + 0x800 (= 0x2000)
     low: u8,
     big: bool,
 }
@@ -79,7 +118,8 @@ impl WCfg {
         match self.low {
             0 => None,
             1 => Some(0),
-            _ => Some(0x1000),
+            2 => Some(0x1000),
+            _ => Some(SYM0 + 0x800),
         }
     }
     fn render(&self) -> String {
@@ -95,7 +135,7 @@ fn wconfigs() -> Vec<WCfg> {
     for version in [2u16, 3, 4, 5] {
         for fmt64 in [false, true] {
             for size in [4u8, 8] {
-                for low in 0..3u8 {
+                for low in 0..4u8 {
                     // endianness alternates with the other dimensions (both occur for every version/size)
                     let big = (fmt64 as u8 + low) % 2 == 1;
                     out.push(WCfg { version, fmt64, size, low, big });
@@ -233,7 +273,7 @@ fn w_loc(e: &E, target: write::UnitEntryId) -> write::Location {
 }
 
 struct Written {
-    sections: Sections<EndianVec<RunTimeEndian>>,
+    sections: Sections<SymVec>,
     /// list ids as raw equality classes: ids[i] == ids[j]
     same_id: Vec<Vec<bool>>,
 }
@@ -244,7 +284,8 @@ fn write_unit(c: &WCfg, loc: bool, lists: &[Vec<E>]) -> Result<Written, write::E
     let mut du = DwarfUnit::new(c.encoding());
     let root = du.unit.root();
     if let Some(l) = c.low_pc() {
-        du.unit.get_mut(root).set(gimli::DW_AT_low_pc, AttributeValue::Address(Address::Constant(l)));
+        let a = if c.low == 3 { Address::Symbol { symbol: 0, addend: 0x800 } } else { Address::Constant(l) };
+        du.unit.get_mut(root).set(gimli::DW_AT_low_pc, AttributeValue::Address(a));
     }
     // the DIE that location descriptions refer to (first child)
     let target = du.unit.add(root, gimli::DW_TAG_dwarf_procedure);
@@ -271,12 +312,12 @@ fn write_unit(c: &WCfg, loc: bool, lists: &[Vec<E>]) -> Result<Written, write::E
             same_id[i][j] = if loc { lids[i] == lids[j] } else { rids[i] == rids[j] };
         }
     }
-    let mut sections = Sections::new(EndianVec::new(if c.big { RunTimeEndian::Big } else { RunTimeEndian::Little }));
+    let mut sections = Sections::new(SymVec::new(if c.big { RunTimeEndian::Big } else { RunTimeEndian::Little }));
     du.write(&mut sections)?;
     Ok(Written { sections, same_id })
 }
 
-fn sec<'a>(s: &'a Sections<EndianVec<RunTimeEndian>>, id: SectionId) -> &'a [u8] {
+fn sec<'a>(s: &'a Sections<SymVec>, id: SectionId) -> &'a [u8] {
     s.get(id).map(|w| w.slice()).unwrap_or(&[])
 }
 
@@ -595,7 +636,7 @@ fn single_sub(loc: bool, maxlen: u32) -> Sub {
     let count = seq_count(n, 0, maxlen);
     let name = format!("write-{}-single-len<={}", if loc { "locations" } else { "ranges" }, maxlen);
     let bound = format!(
-        "every list of 0..={} entries over the {}-instance writer alphabet (BaseAddress, OffsetPair, StartEnd, StartLength{} with addresses/lengths from B(size), expressions {{empty, DW_OP_reg0, DW_OP_call4 of a unit entry}}), one list per unit, under {} configurations: version {{2,3,4,5}} x format {{32,64}} x address size {{4,8}} x unit DW_AT_low_pc {{absent, 0, 0x1000}} (endianness alternating)",
+        "every list of 0..={} entries over the {}-instance writer alphabet (BaseAddress, OffsetPair, StartEnd, StartLength{} with addresses/lengths from B(size), expressions {{empty, DW_OP_reg0, DW_OP_call4 of a unit entry}}), one list per unit, under {} configurations: version {{2,3,4,5}} x format {{32,64}} x address size {{4,8}} x unit DW_AT_low_pc {{absent, 0, 0x1000, symbol+0x800 (resolved by the writer to 0x2000)}} (endianness alternating)",
         maxlen,
         n,
         if loc { ", DefaultLocation" } else { "" },
@@ -687,7 +728,7 @@ fn xref_sub() -> Sub {
             }
             ctx.eval(1);
             let nu = versions.len();
-            let built = guard(|| -> Result<Sections<EndianVec<RunTimeEndian>>, write::Error> {
+            let built = guard(|| -> Result<Sections<SymVec>, write::Error> {
                 let mut dwarf = write::Dwarf::new();
                 let mut uids = vec![];
                 let mut befores = vec![];
@@ -731,7 +772,7 @@ fn xref_sub() -> Sub {
                     ]));
                     unit.get_mut(vars[u]).set(gimli::DW_AT_location, AttributeValue::LocationListRef(id));
                 }
-                let mut sections = Sections::new(EndianVec::new(if big { RunTimeEndian::Big } else { RunTimeEndian::Little }));
+                let mut sections = Sections::new(SymVec::new(if big { RunTimeEndian::Big } else { RunTimeEndian::Little }));
                 dwarf.write(&mut sections)?;
                 Ok(sections)
             });
@@ -837,6 +878,76 @@ fn xref_sub() -> Sub {
     )
 }
 
+/// `.debug_loc` stores the expression length in two bytes, `.debug_loclists` as ULEB128.
+fn exprlen_sub() -> Sub {
+    let lens: [usize; 5] = [0xff, 0xfffe, 0xffff, 0x1_0000, 0x1_0001];
+    Sub::new(
+        "location-expression-length-boundary",
+        4 * 2 * 2 * 5,
+        "version {2,3,4,5} x format {32,64} x address size {4,8} x expression length {255, 65534, 65535, 65536, 65537} bytes: location list [StartEnd(0x1000,0x1010, L x DW_OP_nop), StartEnd(0x2000,0x2010, DW_OP_reg0)]; before version 5 a length above 65535 must be refused with an error, everything else must be written and read back with the same two entries",
+        move |ctx, i| {
+            let mut x = mcx::space::Mix(i);
+            let l = *x.pick(&lens);
+            let size = if x.flag() { 8u8 } else { 4 };
+            let fmt64 = x.flag();
+            let version = [2u16, 3, 4, 5][x.take(4) as usize];
+            let big = (i % 3) == 1;
+            let case = format!("version={} format={} size={} expression length {}", version, if fmt64 { 64 } else { 32 }, size, l);
+            ctx.eval(1);
+            let built = guard(|| -> Result<Sections<SymVec>, write::Error> {
+                let enc = Encoding { version, format: if fmt64 { Format::Dwarf64 } else { Format::Dwarf32 }, address_size: size };
+                let mut du = DwarfUnit::new(enc);
+                let root = du.unit.root();
+                let mut plain = write::Expression::new();
+                plain.op_reg(gimli::Register(0));
+                let id = du.unit.locations.add(write::LocationList(vec![
+                    write::Location::StartEnd { begin: Address::Constant(0x1000), end: Address::Constant(0x1010), data: write::Expression::raw(vec![0x96; l]) },
+                    write::Location::StartEnd { begin: Address::Constant(0x2000), end: Address::Constant(0x2010), data: plain },
+                ]));
+                let die = du.unit.add(root, gimli::DW_TAG_variable);
+                du.unit.get_mut(die).set(gimli::DW_AT_location, AttributeValue::LocationListRef(id));
+                let mut sections = Sections::new(SymVec::new(if big { RunTimeEndian::Big } else { RunTimeEndian::Little }));
+                du.write(&mut sections)?;
+                Ok(sections)
+            });
+            let must_fail = version < 5 && l > 0xffff;
+            let sections = match built {
+                Err(p) => return ctx.fail_panic("DwarfUnit::write", &p, case),
+                Ok(Err(_)) if must_fail => return ctx.outcome("exprlen:refused"),
+                Ok(Err(e)) => return ctx.fail("write::LocationListTable", "expression-length", "unexpected-error", format!("{}: {:?}", case, e)),
+                Ok(Ok(s)) => s,
+            };
+            let en = if big { RunTimeEndian::Big } else { RunTimeEndian::Little };
+            let r = guard(|| -> Result<Vec<(u64, u64, usize)>, String> {
+                let d: read::Dwarf<R<'_>> = read::Dwarf::load(|id| -> Result<R<'_>, ()> { Ok(EndianSlice::new(sec(&sections, id), en)) }).unwrap();
+                let hdr = d.units().next().map_err(|e| e.to_string())?.ok_or("no unit")?;
+                let unit = d.unit(hdr).map_err(|e| e.to_string())?;
+                let mut cur = unit.entries();
+                cur.next_dfs().map_err(|e| e.to_string())?;
+                let die = cur.next_dfs().map_err(|e| e.to_string())?.ok_or("no variable entry")?;
+                let val = die.attr_value(gimli::DW_AT_location).ok_or("no DW_AT_location")?;
+                let mut it = d.attr_locations(&unit, val).map_err(|e| e.to_string())?.ok_or("not a list")?;
+                let mut v = vec![];
+                while let Some(e) = it.next().map_err(|e| format!("entry {}: {}", v.len(), e))? {
+                    v.push((e.range.begin, e.range.end, e.data.0.len()));
+                    if v.len() > 4 {
+                        break;
+                    }
+                }
+                Ok(v)
+            });
+            match r {
+                Err(p) => ctx.fail_panic("read-back", &p, case),
+                Ok(Ok(v)) if !must_fail && v == vec![(0x1000, 0x1010, l), (0x2000, 0x2010, 1)] => {
+                    ctx.nontriv(1);
+                    ctx.outcome("exprlen:ok");
+                }
+                Ok(other) => ctx.fail("write::LocationListTable", "expression-length", if must_fail { "wrote-unrepresentable-length" } else { "list-reads-back-differently" }, format!("{}: read back {:?}", case, other)),
+            }
+        },
+    )
+}
+
 pub fn def(tier: Tier) -> CheckDef {
     let ml = tier.pick(3u32, 4u32);
     let mut subs = vec![single_sub(false, ml), single_sub(true, ml)];
@@ -846,6 +957,7 @@ pub fn def(tier: Tier) -> CheckDef {
         subs.push(multi_sub(loc, 3, tier.pick(1, 2)));
     }
     subs.push(xref_sub());
+    subs.push(exprlen_sub());
     let mut req: Vec<String> = vec![];
     for k in ["base_address", "offset_pair", "start_end", "start_length"] {
         req.push(format!("kind:range:{}", k));
@@ -867,6 +979,8 @@ pub fn def(tier: Tier) -> CheckDef {
         "rejected:open",
         "dedup:duplicates-in-unit",
         "xref:ok",
+        "exprlen:ok",
+        "exprlen:refused",
     ] {
         req.push(k.into());
     }
